@@ -230,6 +230,19 @@ def scalar_getvalue(h):
                     got = s.GetValue(u)
                     if got != exp:
                         return {"reproduced": True, "call": "%r.GetValue(%r)" % (s, u), "observed": got, "expected": exp}
+    # units that share their registered *name* while being different units (the name is not an identity)
+    from barril.units import Scalar as _S
+
+    for a, b in (("mCi", "uCi"), ("lbmol", "mol(lbm)"), ("kJ/kmol", "kJ/mol"), ("sq yd", "yd2")):
+        try:
+            sc = _S(3.0, a)
+            dbq = sc.GetUnitDatabase()
+            exp = dbq.Convert(sc.GetQuantityType(), a, b, 3.0)
+            got = sc.GetValue(b)
+        except Exception:
+            continue
+        if got != exp:
+            return {"reproduced": True, "call": "Scalar(3.0, %r).GetValue(%r)" % (a, b), "observed": got, "expected": exp}
     return {"reproduced": False}
 
 
@@ -1060,6 +1073,16 @@ def derived_strings(h):
                 out.append((m.group(1), (int(m.group(2)) if m.group(2) else 1) * (1 if k == 0 else -1)))
         return out
 
+    # three categories of one quantity type sharing one unit symbol: joined exponents that cancel part-way
+    same = [c for c in ("length", "depth", "diameter", "well length") if c in db.categories_to_quantity_types][:3]
+    if len(same) == 3:
+        for exps in ((2, -2, 1), (1, -1, 3), (-1, 1, -2), (2, -1, -1)):
+            d = OrderedDict((c, ["m", e]) for c, e in zip(same, exps))
+            q = ObtainQuantity(d)
+            ju = joined([("m", e) for e in exps])
+            exp_unit = rend([(u, e) for u, e in ju if e != 0], False)
+            if q.GetUnit() != exp_unit:
+                return {"reproduced": True, "call": "ObtainQuantity(%r).GetUnit()" % dict(d), "observed": q.GetUnit(), "expected": exp_unit}
     cats = [("length", "m"), ("time", "s"), ("mass", "kg"), ("depth", "cm"), ("temperature", "K")]
     cats = [(c, u) for c, u in cats if c in db.categories_to_quantity_types and u in db.unit_to_unit_info]
     for n in (1, 2, 3):
@@ -1272,6 +1295,7 @@ def _value_objects():
         FractionValue(1, Fraction(1, 2)), FractionValue(1.5), Fraction(1, 2), Fraction(2, 4), Fraction(3, 1),
         Curve(Array([1.0, 2.0], "m"), Array([0.0, 1.0], "s")),
         UnitSystem("a", "A", {"length": "m"}), UnitSystem("a", "A", {"length": "m"}, True),
+        UnitSystem("a", "A", {"length": "m", "time": "s"}), UnitSystem("a", "A", {}), UnitSystem("a", "A", {"length": "cm"}),
     ]
     others = [None, 0, 1.5, "m", (1, 2), [1.0, 2.0], object(), {"a": 1}]
     return objs, others
@@ -1366,7 +1390,11 @@ def fraction_scalar(h):
                     continue
                 fs = FractionScalar(v, u)
                 sc = Scalar(float(v), u)
+                before = (repr(fs.GetValue()), float(fs.GetValue()), fs.GetUnit())
                 got, exp = float(fs.GetValue(w)), sc.GetValue(w)
+                fs < FractionScalar(v, w)
+                if (repr(fs.GetValue()), float(fs.GetValue()), fs.GetUnit()) != before:
+                    return {"reproduced": True, "call": "FractionScalar(%r, %r).GetValue(%r) / comparison" % (v, u, w), "observed": "operand afterwards: %r" % (fs.GetValue(),), "expected": "operand unchanged: %s" % before[0]}
                 if abs(got - exp) > 1e-7 * max(1.0, abs(exp)):
                     return {"reproduced": True, "call": "float(FractionScalar(%r, %r).GetValue(%r))" % (v, u, w), "observed": got, "expected": exp}
                 if float(fs.GetValue(u)) != float(v) or fs.GetValue() is not fs.value:
@@ -1376,7 +1404,7 @@ def fraction_scalar(h):
     if want_affine:
         return conversions(True) or {"reproduced": False}
     if not want_order:
-        r = conversions(False)
+        r = conversions(False) or conversions(True)
         if r:
             return r
     ops = {"<": operator.lt, "<=": operator.le, ">": operator.gt, ">=": operator.ge}
@@ -1454,6 +1482,14 @@ def array_getvalues(h):
         return out
 
     data = [0.0, 100.0, -40.0, 37.0]
+    # all-zero amounts in every container kind (an offset unit does not map zero to zero)
+    for kind, mk in (("list", list), ("tuple", tuple), ("ndarray", numpy.array)):
+        for u, w in (("degC", "K"), ("degF", "degC"), ("m", "cm")):
+            z = Array(mk([0.0, 0.0]), u)
+            got = [float(x) for x in z.GetValues(w)]
+            exp = [z.GetUnitDatabase().Convert(z.GetQuantityType(), u, w, 0.0)] * 2
+            if any(not close(x, y, 1e-12) for x, y in zip(got, exp)) or len(got) != 2:
+                return {"reproduced": True, "call": "Array(%s([0.0, 0.0]), %r).GetValues(%r)" % (kind, u, w), "observed": got, "expected": exp}
     containers = {
         "list": list(data), "tuple": tuple(data), "ndarray": numpy.array(data),
         "list-of-tuples": [(0.0, 100.0), (-40.0, 37.0)], "tuple-of-tuples": ((0.0, 100.0), (-40.0, 37.0)),
